@@ -17,6 +17,7 @@ ID = 'C13'
 LEVEL = 'exploration'
 RULE = ('Each run = one seeded precipitation record with a temperature schedule (const / break points / function; ramps 1e2..1e5 K/s relative to the stub time scale, '
         'both signs, holds, beyond-last-point) executed as a pair (constructor vs setter, or break points vs function form) and compared bitwise; binary runs carry the lookup-table staleness tap; '
+        'reschedule histories: the schedule of a live model is replaced by another kind of specification between solve calls (recorded temperature, isothermal flag, incubation formula actually evaluated, table staleness follow the schedule in force); '
         'diffusion runs compare the temperature handed to the flux computation with the schedule. Non-trivial = temperature changed by more than maxTempChange over the run and at least 10 steps; '
         'distinct = distinct record digest; signature = (backend, schedule kind, heating/cooling/hold seen, table rebuilds seen, pair kind).')
 ASSUMPTIONS = ['Recorded temperature compared with a scalar re-implementation of the documented hour-based linear interpolation (4 ulp); constants bitwise.',
@@ -64,6 +65,30 @@ def generate(rng, tier, index):
                 cfg['T']['grad'] = rng.choice([0.0, 25.0, -40.0]) / cfg['L']
         cfg['cache'] = False
         return {'kind': 'diffusion', 'cfg': cfg, 'ops': DW.gen_ops(rng), 'cap': 300}
+    if index % 6 == 4:
+        # history: the schedule is replaced (by another kind of specification) between solve calls of one model
+        cfg = W.gen_stub_config(rng, nel=rng.choice([1, 1, 2]), allow_shapes=False)
+        solves = W.gen_solve_ops(rng)
+        while len(solves) < 2:
+            solves = W.gen_solve_ops(rng)
+        total = sum(o['T'] for o in solves)
+        T0 = cfg['T']['T']
+        kinds = ['const', 'array', 'func']
+        k0 = rng.choice(kinds)
+        cfg['T'] = {'kind': 'const', 'T': T0} if k0 == 'const' else dict(gen_schedule(rng, total, T0), kind=k0)
+        cfg['T_via'] = rng.choice(['setter', 'ctor'])
+        cons = cfg.setdefault('constraints', {})
+        cons['maxTempChange'] = rng.choice([0.5, 1, 5])
+        ops = [solves[0]]
+        prev = k0
+        for o in solves[1:]:
+            if rng.random() < 0.8:
+                k1 = rng.choice([k for k in kinds if k != prev] + kinds)
+                Tn = T0 + rng.choice([0, 0, -5, 10])
+                ops.append({'op': 'set_temperature', 'spec': {'kind': 'const', 'T': Tn} if k1 == 'const' else dict(gen_schedule(rng, total, Tn), kind=k1)})
+                prev = k1
+            ops.append(o)
+        return {'kind': 'reschedule', 'cfg': cfg, 'ops': ops, 'cap': 220, 'pair': 'none'}
     real = rng.random() < 0.04
     if real:
         cfg = W.real_config('real_alzr', rng)
@@ -150,6 +175,76 @@ class TempMonitor:
                             F.add('C13.stale_solvus', f'step {n} phase {p}: recorded equilibrium matrix composition {xe!r} outside the solvus bracket [{lo!r},{hi!r}] for T={T!r} +- {self.maxT} K', direction='na')
 
 
+class IncubationTap:
+    """Which incubation formula the model evaluates (module-level seam: KWNBase calls nucfuncs.incubationTime / incubationTimeNonIsothermal)."""
+
+    def __init__(self):
+        import kawin.precipitation.NucleationRate as NR
+        self.NR = NR
+        self.orig = (NR.incubationTime, NR.incubationTimeNonIsothermal)
+        self.calls = []
+
+        def iso(*a, **kw):
+            self.calls.append('isothermal')
+            return self.orig[0](*a, **kw)
+
+        def noniso(*a, **kw):
+            self.calls.append('non-isothermal')
+            return self.orig[1](*a, **kw)
+        NR.incubationTime, NR.incubationTimeNonIsothermal = iso, noniso
+
+    def drain(self):
+        c, self.calls = self.calls, []
+        return c
+
+    def remove(self):
+        self.NR.incubationTime, self.NR.incubationTimeNonIsothermal = self.orig
+
+
+def execute_reschedule(rec):
+    F = core.Failures()
+    cnt = {k: 0 for k in ('steps', 'staleness_checks', 'pairs', 'table_rebuilds', 'runs_real', 'runs_stub', 'sim_time', 'capped', 'reschedules', 'incubation_checks')}
+    cfg = copy.deepcopy(rec['cfg'])
+    cnt['runs_stub'] = 1
+    tap = IncubationTap()
+    try:
+        m, backend = W.build_model(cfg, keep_log=False)
+        mon = TempMonitor(m, cfg, backend, F, cnt)
+        state = {'kind': cfg['T']['kind']}
+
+        class Treat:
+            def on_step(self, mm):
+                want = 'isothermal' if state['kind'] == 'const' else 'non-isothermal'
+                for c in tap.drain():
+                    cnt['incubation_checks'] += 1
+                    if c != want:
+                        F.add('C13.incubation_treatment', f'step {mm.pData.n}: the model evaluated the {c} incubation formula while the schedule in force is a {state["kind"]} specification', current=state['kind'])
+                        break
+        obs = W.Observer([mon, Treat()], rec.get('cap', 220))
+        m.addCouplingModel(obs)
+
+        def call_end(ci, info):
+            if info.get('op') == 'set_temperature':
+                mon.spec = info['spec']
+                state['kind'] = info['spec']['kind']
+                tap.drain()
+                cnt['reschedules'] += 1
+                mon.sig.add('resched:' + info['spec']['kind'])
+                iso = bool(m.temperatureParameters._isIsothermal)
+                if iso != (info['spec']['kind'] == 'const'):
+                    F.add('C13.isothermal_flag', f'after setTemperature with a {info["spec"]["kind"]} specification the model reports isothermal={iso}', pair='reschedule')
+        info = W.run_ops(m, rec['ops'], obs, F=None, on_call_end=call_end)
+    finally:
+        tap.remove()
+    if info['exception'] is not None:
+        raise core.Inconclusive(f'exception {info["exception"][0]} at {info["exception"][2]}')
+    cnt['table_rebuilds'] = mon.rebuilds
+    cnt['sim_time'] = float(m.pData.time[m.pData.n])
+    cnt['capped'] = int(info['capped'])
+    sig = f"reschedule:{cfg['backend']}:{cfg['T']['kind']}:" + ','.join(sorted(mon.sig))
+    return core.result(F, sig=sig, nontrivial=cnt['steps'] >= 10 and cnt['reschedules'] >= 1 and cnt['incubation_checks'] >= 5, counters=cnt, digest=pdata_digest(m))
+
+
 def run_variant(rec, variant, F, cnt, monitor=True):
     cfg = copy.deepcopy(rec['cfg'])
     if variant == 'ctor':
@@ -212,6 +307,8 @@ def execute_diffusion(rec):
 def execute(rec):
     if rec.get('kind') == 'diffusion':
         return execute_diffusion(rec)
+    if rec.get('kind') == 'reschedule':
+        return execute_reschedule(rec)
     F = core.Failures()
     cnt = {k: 0 for k in ('steps', 'staleness_checks', 'pairs', 'table_rebuilds', 'runs_real', 'runs_stub', 'sim_time', 'capped')}
     cfg = rec['cfg']
@@ -249,7 +346,8 @@ def shrink_candidates(rec):
             yield r
         return
     for r in W.shrink_run_record(rec):
-        yield r
+        if rec.get('kind') != 'reschedule' or any(o['op'] == 'set_temperature' for o in r['ops']):
+            yield r
     T = rec['cfg']['T']
     if T['kind'] != 'const' and len(T['times']) > 2:
         for i in range(1, len(T['times'])):
